@@ -20,7 +20,7 @@ def _judge(run):
 
 P = ScenarioProperty(
     PROP,
-    {"families": ["step", "constant", "sphere", "rastrigin", "abssum", "twobasin", "linear", "offset", "offset"], "hibernation": 0.2, "pmut_low": True, "small_pops": True},
+    {"families": ["step", "constant", "sphere", "rastrigin", "abssum", "twobasin", "linear", "offset", "offset"], "hibernation": 0.2, "pmut_low": True, "small_pops": True, "allow_cache": True},
     lambda sc: [C12Checker(sc)],
     _judge,
     quick=1600,
